@@ -34,7 +34,8 @@ PROPS = {
         title='The filter parser is total',
         verus=[('u_filter', [r'^Scanner::', r'^parse_', r'^is_unit_char$', r'^is_partial_date$', r'^as_date$', r'^Lexer::',
                              r'^LexerToken::', r'^Parser::']),
-               ('u_weval', [r'^WildcardEq::eval$', r'^Ref::<PartialEq>::eq$'])],
+               ('u_weval', [r'^WildcardEq::eval$', r'^Ref::<PartialEq>::eq$']),
+               ('u_feval', [r'^(Or|And|Term|Parens|Has|Missing|Cmp)::eval$'])],
         kani=[],
         witness='filter',
         design_ref='DESIGN.md section 4, C09',
@@ -43,7 +44,7 @@ PROPS = {
                     'nesting budget (decreases MAX_NESTING_DEPTH - depth). Evaluation: the ref-chain loop of WildcardEq::eval (`id *== @ref`) terminates '
                     'for every resolver that answers for finitely many ref ids, whatever cycles the refs form: each turn that does not leave '
                     'the loop adds to the visited set an id the resolver knows and that was not there (decreases |known ids| - |visited|).'),
-        not_decided=('Termination of the other evaluators (And/Or/Cmp/Has/Missing are loop-free calls into the resolver; Relation::eval goes through the namespace); '
+        not_decided=('Termination of Relation::eval and IsA::eval (they go through the namespace) and of the caller-supplied resolver itself; Or / And / Parens / Term / Has / Missing / Cmp are proved to terminate (structural recursion over the filter tree, unit u_feval); '
                      'a resolver that invents a fresh record for every ref (infinitely many ids) is outside the termination claim; '
                      'the reader is '
                      'assumed to fail only at end of input (filters are parsed from in-memory strings); '
@@ -168,7 +169,8 @@ PROPS = {
     ),
     'C07': dict(
         title='Filter evaluation follows the Haystack filter semantics',
-        verus=[('u_resolver', [r'^Dict::resolve_for$', r'^Path::', r'^lemma_walk_null_stays$', r'^Value::is_null$', r'^Grid::filter_all$'])],
+        verus=[('u_resolver', [r'^Dict::resolve_for$', r'^Path::', r'^lemma_walk_null_stays$', r'^Value::is_null$', r'^Grid::filter_all$']),
+               ('u_feval', [r'^(Or|And|Term|Parens|Has|Missing|Cmp)::eval$', r'^lemma_all_terms_false$', r'^lemma_any_and_true$', r'^Value::has_value$', r'^ev_|^any_and$|^all_terms$'])],
         kani=[dict(harness='k_cmp_eq', klass='complete', schema='raw', family='filter-cmp:eq', target='filter::nodes::cmp_values(Eq)', timeout=400),
               dict(harness='k_cmp_ne', klass='complete', schema='raw', family='filter-cmp:ne', target='filter::nodes::cmp_values(NotEq)', timeout=400),
               dict(harness='k_cmp_lt', klass='complete', schema='raw', family='filter-cmp:lt', target='filter::nodes::cmp_values(LessThan)', timeout=400),
@@ -181,10 +183,10 @@ PROPS = {
         level_text=('Proof (Kani/CBMC, complete over the 7 heap-free kinds x all non-NaN f64, one harness per operator) of the comparison '
                     'kernel cmp_values with the real PartialEq/PartialOrd of Value: a comparison holds only if the tag has a value; '
                     '< <= > >= hold only for a value of the literal\'s kind ordered as stated; == iff equal; != iff a value that is not equal. '
-                    'Proof (Verus, all dicts and paths) of path resolution by the default resolver: a->b->c looks each segment up in the dict the '
+                    'Proof (Verus, unit u_feval, every filter tree and every context) of the evaluator itself against a recursive specification written from the filter language: Or::eval holds iff some operand holds, And::eval iff all do, Parens::eval is its inner or, tag / not tag test whether the resolved value is non-Null / Null, and a comparison is the kernel applied to the resolved value and the literal (Iterator::any / all rewritten to index loops by rule R23; ^symbol, *== and relation terms are uninterpreted functions of the term and the context). Proof (Verus, all dicts and paths) of path resolution by the default resolver: a->b->c looks each segment up in the dict the '
                     'previous segments resolve to, and a missing tag, a Null or a non-dict value anywhere along the path gives Null; and of '
                     'Grid::filter_all: it returns exactly the rows for which the filter holds, in order.'),
-        not_decided=('and/or/parens evaluation (Iterator::any/all with closures over the node tree); caller-supplied resolvers and Ref chains; '
+        not_decided=('caller-supplied resolvers and Ref chains; '
                      '^symbol and relationship terms (namespace, C13); string/ref/date literals and list tags in the kernel (heap values '
                      'make CBMC runs unbounded in time: a two-element list harness did not finish in 20 min); Grid::filter (first match: Iterator::find); '
                      'precedence is a parser matter (C08). NaN literals are excluded (not expressible in filter text; derive(PartialOrd) '
